@@ -33,7 +33,8 @@
     LinearFilter.__ne__       num != num' and den != den'          (as coded: defect D2)
     LinearFilter.__hash__     hash(tuple(numdict) + tuple(dendict)) -- tuples of the sorted POWERS
 
-  Not modelled: Stream coefficients (C06), float / fractional powers (`linearize`), `__str__`,
+  Not modelled: Stream coefficients (C06), float / fractional powers (`linearize` is modelled on
+  integer delays only), `__str__`,
   plotting, `diff`, `poles` / `zeros` (numpy).
 -/
 import ALV.Model.C07
@@ -226,6 +227,12 @@ def neFixed (f g : ZF α) : Bool := !(eq f g)
 the tuple of its keys, so the hashed value is the list of sorted powers of both polynomials
 (CPython's `hash` of that tuple is trusted). -/
 def hashKey (f : ZF α) : List Int := keys (sortAsc f.num) ++ keys (sortAsc f.den)
+
+/-- `LinearFilter.linearize` on a filter whose delays are all integers: every term gives the single
+pair `(int(k), v)`, the two dictionaries are rebuilt in `terms()` order and handed to the
+constructor again (fractional delays, which `linearize` splits between the two neighbouring
+integer delays with float weights, are outside this model) -/
+def linearize (f : ZF α) : Except PyErr (ZF α) := ofData (sortAsc f.num) (sortAsc f.den)
 
 /-- `LinearFilter.is_causal` : only the numerator is looked at (the constructor has normalised
 the denominator) -/
